@@ -33,7 +33,13 @@ Paths == {"dense_list", "ndarray", "csr", "csc", "coo", "lil", "dok", "edge_list
           \* the same constructions from edges listed in another order / with swapped endpoints, and copies
           \* of networks that did not come from an adjacency matrix
           "igraph_shuffled", "igraph_shuffled.copy", "edge_list_shuffled", "copy.copy", "graphml.copy",
-          "pickle.copy", "edge_list_n.copy"}
+          "pickle.copy", "edge_list_n.copy",
+          \* histories: save, change the node weights, save again, load the second file
+          "resave_unit.graphml", "resave_unit.pickle", "resave_w.graphml", "resave_w.pickle",
+          \* the spatial subclasses (network file + grid file)
+          "geo_none.graphml", "geo_set.graphml", "geo_set.pickle", "spatial.graphml"}
+\* paths whose final node weights are all one (whatever the weights of the case)
+UnitWeightPaths == {"resave_unit.graphml", "resave_unit.pickle", "geo_none.graphml"}
 \* summary attributes as functions of the abstract network (w scaled by wden)
 NLinksDir(a) == Sum(LAMBDA i : Sum(LAMBDA j : a.A[i][j], 1..Len(a.A)), 1..Len(a.A))
 NLinks(a) == IF a.dir = 1 THEN NLinksDir(a) ELSE NLinksDir(a) \div 2
